@@ -77,7 +77,11 @@ MonInit(S) ==
     sqfail    |-> {},                      \* pids whose scheduler query failed
     atPromo   |-> [p \in {} |-> <<>>],     \* pid -> job-status part of the status right after its promotion
     otherFaults |-> FALSE,                 \* a fault other than a failed scheduler query was injected
-    rerun     |-> {},                      \* jobs a resubmission may rerun (epoch > 0)
+    rerun     |-> {},
+    resubPending |-> {},                   \* resubmit-jobs processes started on a complete submission
+    refused   |-> [p \in {} |-> <<>>],     \* resubmit-jobs started on an incomplete submission -> what it must leave as it was
+    resubSeen |-> FALSE,
+    prevSummary |-> <<>>,                  \* results.json entries before the last resubmission                      \* jobs a resubmission may rerun (epoch > 0)
     ended     |-> FALSE ]
 
 Bump(m, c) == [m EXCEPT !.cnt = IF c \in DOMAIN @ THEN [@ EXCEPT ![c] = @ + 1] ELSE @ @@ (c :> 1)]
@@ -128,12 +132,28 @@ BatchChecks(S, m, e) ==
   IN g
 
 -----------------------------------------------------------------------------
+\* ---- C13: which jobs a resubmission reruns
+RECURSIVE Closure(_, _)
+Closure(S, X) == LET Y == X \cup {j \in JobsOf(S) : BlkOf(S, j) \cap X # {}} IN IF Y = X THEN X ELSE Closure(S, Y)
+SumClass(r) == IF r[3] = "canceled" THEN "canceled" ELSE IF r[2] = 0 THEN "successful" ELSE "failed"
+Selected(S, m, fl) ==
+  LET res == m.lastSummary.res
+      byClass(c) == {res[k][1] : k \in {x \in 1..Len(res) : SumClass(res[x]) \in c}}
+  IN (IF fl.failed THEN byClass({"failed", "canceled"}) ELSE {})
+     \cup (IF fl.successful THEN byClass({"successful"}) ELSE {})
+     \cup (IF fl.missing THEN ToSet(m.lastSummary.missing) ELSE {})
+Keep(m) == <<m.st.st, m.st.rem, m.st.nsub, m.st.ndone, m.st.complete, m.st.canceled, m.st.sub>>
+
 OnProc(S, m, e) ==
   LET quiet == m.hasSt /\ m.active = 0 /\ m.st.sub = "" /\ ~m.st.complete
       m1 == [m EXCEPT !.kind = (e.pid :> e.k) @@ @, !.alive = @ \cup {e.pid}, !.pbatch = (e.pid :> e.b) @@ @]
   IN IF e.k = "try-submit-jobs"
        THEN [m1 EXCEPT !.rounds = (e.pid :> [quiet |-> quiet, nsb |-> m.okSbatch, promoted |-> FALSE]) @@ @]
-       ELSE m1
+     ELSE IF e.k = "resubmit-jobs" /\ m.hasSt
+       THEN IF m.st.complete
+              THEN [m1 EXCEPT !.rerun = Closure(S, Selected(S, m, e.fl)), !.resubPending = @ \cup {e.pid}, !.resubSeen = TRUE]
+              ELSE [m1 EXCEPT !.refused = (e.pid :> <<Keep(m), FALSE>>) @@ @]
+     ELSE m1
 
 OnExit(S, m, e) ==
   LET p == e.pid
@@ -151,7 +171,10 @@ OnExit(S, m, e) ==
                   e.exc = "" /\ HookCount(m, "nteardown", m.pbatch[p]) = 1)
       m5 == Check(m4, "RunnerEndsClean", e.k = "run-jobs" /\ p \in DOMAIN m.pbatch /\ ~m.faulty /\ m.pbatch[p] \notin m.killedB
                       /\ (S.hooks.nsetup \/ S.hooks.nteardown), e.exc = "")
-  IN m5
+      \* C13: resubmit-jobs on an incomplete submission refuses and leaves jobs, counters, submitter field and lock alone
+      m6 == Check(m5, "RefuseLeavesUnchanged", p \in DOMAIN m.refused /\ ~m.refused[p][2],
+                  Keep(m) = m.refused[p][1] /\ ~e.clock /\ e.code # 0 /\ e.exc \in {"", "SystemExit"})
+  IN m6
 
 OnCfgBatch(S, m, e) ==
   LET b == e.b
@@ -287,7 +310,7 @@ OnStatus(S, m, e) ==
       a15 == Check(a14, "OneSubmitter", has /\ prev.sub # "" /\ e.sub # "", e.sub = prev.sub)
       \* C05
       a16 == Check(a15, "CompleteHasAllResults",
-                   becameComplete /\ FaultFree(m) /\ ~AnyDry(S) /\ ~m.cancelSeen /\ ~e.canceled /\ Acyclic(S),
+                   becameComplete /\ FaultFree(m) /\ ~AnyDry(S) /\ ~m.cancelSeen /\ ~e.canceled /\ Acyclic(S) /\ m.epoch = 0,
                    J \subseteq rows)
       a17 == Check(a16, "SummaryBeforeFlag", becameComplete, m.summaries >= 1)
       a18 == Check(a17, "CompleteOnce", becameComplete, m.completions = 0)
@@ -296,7 +319,20 @@ OnStatus(S, m, e) ==
                    sameJobs /\ e.marker /\ has /\ ~m.faulty /\ ~m.nodefault /\ ~e.canceled /\ ~AnyDry(S)
                      /\ JsPart(e) # JsPart(prev) /\ leftover # {},
                    S.maxnodes > 0 /\ Len(e.ids) >= S.maxnodes)
-  IN [a19 EXCEPT !.st = [k \in DOMAIN NoStatus |-> e[k]],
+      notRerun(r) == r[1] \notin m.rerun
+      b19 == IF isResub
+               THEN [a19 EXCEPT !.launches = [j \in J |-> 0], !.placed = [j \in J |-> {}],
+                                !.res = [j \in (DOMAIN @) \ m.rerun |-> @[j]],
+                                !.appended = {r \in @ : notRerun(r)}, !.intents = {r \in @ : notRerun(r)},
+                                !.reported = {r \in @ : notRerun(r)}, !.canceledJ = @ \ m.rerun,
+                                !.exited = [j \in (DOMAIN @) \ m.rerun |-> @[j]],
+                                !.faulty = FALSE, !.nodefault = FALSE, !.otherFaults = FALSE, !.killedB = {},
+                                !.prevSummary = m.lastSummary.res, !.anyHandOver = FALSE]
+               ELSE a19
+      \* a refused resubmit-jobs is only held to "unchanged" if nobody else wrote meanwhile
+      c19 == [b19 EXCEPT !.refused = [p \in DOMAIN @ |-> IF p \in m.alive /\ e.pid # p /\ Keep([m EXCEPT !.st = [k \in DOMAIN NoStatus |-> e[k]]]) # Keep(m)
+                                                          THEN <<@[p][1], TRUE>> ELSE @[p]]]
+  IN [c19 EXCEPT !.st = [k \in DOMAIN NoStatus |-> e[k]],
                  !.hasSt = TRUE,
                  !.epoch = IF isResub THEN @ + 1 ELSE @,
                  !.completions = IF isResub THEN 0 ELSE IF becameComplete THEN @ + 1 ELSE @,
@@ -331,10 +367,11 @@ OnSummary(S, m, e) ==
       a2 == Check(a1, "MissingExact", TRUE, miss = J \ nset /\ IsInj(e.missing))
       a3 == Check(a2, "TallyPartition", TRUE,
                   e.tally = <<nS, nF, nC, Len(e.missing)>> /\ nS + nF + nC + Len(e.missing) = Cardinality(J))
-      a4 == Check(a3, "FinalResultsComplete", allran, nset = J /\ miss = {})
-      a5 == Check(a4, "FinalResultsMatchReference", allran /\ full, \A j \in J : cls(j) = S.ref[j])
+      \* (after a partial resubmission the untouched jobs keep whatever they had: the DAG reference speaks about epoch 0)
+      a4 == Check(a3, "FinalResultsComplete", allran /\ m.epoch = 0, nset = J /\ miss = {})
+      a5 == Check(a4, "FinalResultsMatchReference", allran /\ full /\ m.epoch = 0, \A j \in J : cls(j) = S.ref[j])
       a6 == Check(a5, "FinishedKeepResults", m.epoch = 0, \A r \in m.appended : r[1] \in nset)
-      a7 == Check(a6, "CanceledIff", allran /\ full,
+      a7 == Check(a6, "CanceledIff", allran /\ full /\ m.epoch = 0,
                   \A j \in J : (cls(j) = "canceled") <=>
                       (S.flag[j] /\ \E k \in BlkOf(S, j) : cls(k) \in {"failed", "canceled"}))
       a8 == Check(a7, "RanExactlyOnceUnlessCanceled", allran /\ full /\ m.epoch = 0,
@@ -343,7 +380,14 @@ OnSummary(S, m, e) ==
                   \A j \in J : IF cls(j) = "canceled" THEN Cardinality(m.placed[j]) <= 1 ELSE Cardinality(m.placed[j]) = 1)
       a10 == Check(a9, "AllRowsReported", allran /\ S.mode = "hpc",
                   \A r \in m.appended : (r[3] = "finished" => r \in m.reported))
-  IN [a10 EXCEPT !.summaries = @ + 1, !.lastSummary = [res |-> e.res, missing |-> e.missing, tally |-> e.tally]]
+      a11 == Check(a10, "RerunAllFresh", allran /\ m.epoch > 0 /\ IsInj(names),
+                   \A j \in m.rerun : j \in nset /\ m.launches[j] = (IF cls(j) = "canceled" THEN 0 ELSE 1))
+      \* same name, return code, status and times (the HPC id is not part of what must be preserved)
+      a12 == Check(a11, "UntouchedPreserved", m.epoch > 0,
+                   \A k \in 1..Len(m.prevSummary) : m.prevSummary[k][1] \notin m.rerun =>
+                      \E x \in 1..Len(e.res) : SubSeq(e.res[x], 1, 5) = SubSeq(m.prevSummary[k], 1, 5))
+      a13 == Check(a12, "UntouchedNotRerun", m.epoch > 0, \A j \in J \ m.rerun : m.launches[j] = 0)
+  IN [a13 EXCEPT !.summaries = @ + 1, !.lastSummary = [res |-> e.res, missing |-> e.missing, tally |-> e.tally]]
 
 \* one Cluster API operation by a handle (focused C10 runs): versions of the handle's copies and of the files when
 \* the operation got the lock, the exception it raised, whether any of the four files changed
@@ -388,8 +432,9 @@ OnEnd(S, m, e) ==
       m1 == Check(m, "CompletesAfterRecovery",
                   e.full /\ S.mode = "hpc" /\ (~m.faulty \/ ~m.otherFaults) /\ ~AnyDry(S) /\ m.hasSt, m.st.complete)
       m2 == Check(m1, "ActiveBatchesCancelled", m.cancelSeen /\ m.cleanAtCancel, m.activeAtCancel \subseteq m.scancelled)
+      m2z == Check(m2, "NoDeadEnd", e.full /\ m.resubSeen /\ ~m.faulty /\ S.mode = "hpc" /\ m.hasSt, m.st.complete)
       \* local mode: the one process runs everything; with or without lifecycle commands the results get recorded
-      m2a == Check(m2, "LocalRunRecordsResults", e.full /\ S.mode = "local" /\ ~m.faulty, m.summaries >= 1)
+      m2a == Check(m2z, "LocalRunRecordsResults", e.full /\ S.mode = "local" /\ ~m.faulty, m.summaries >= 1)
       m2b == Check(m2a, "LocalHooksOnce", e.full /\ S.mode = "local" /\ ~m.faulty,
                    /\ (S.hooks.nsetup => HookCount(m, "nsetup", -1) = 1)
                    /\ (S.hooks.nteardown => HookCount(m, "nteardown", -1) = 1)
@@ -451,6 +496,9 @@ ClausesOf(c) ==
                      "CanceledNeverRuns"}
     [] c = "C12" -> {"MissingExact", "NoFabricatedResult", "FinishedKeepResults", "ResultKnownJob", "ResultStatusKnown", "OneResultPerJob",
                      "StartAfterBlockers", "CompletesAfterRecovery", "OneLaunch", "CanceledNeverRuns"}
+    [] c = "C13" -> {"RerunExactly", "RerunAllFresh", "UntouchedPreserved", "UntouchedNotRerun", "OneEntryPerJob", "OneLaunch",
+                     "StartAfterBlockers", "RefuseLeavesUnchanged", "NoDeadEnd", "RowsNeverLost", "FinalResultsMatchReference",
+                     "FinalResultsComplete"}
     [] c = "C14" -> {"NoSbatchAfterCancel", "ActiveBatchesCancelled", "MissingExact", "FinishedKeepResults", "RowsNeverLost",
                      "NoFabricatedResult"}
     [] c = "C16" -> {"HookConfigured", "HookEnv", "SetupOnceBeforeFirstHandOver", "SetupBeforeJobs", "TeardownOncePerCompletion",
